@@ -27,6 +27,13 @@ RULE = ("one evaluation = one scenario on a real StdScheduler (public API, a Job
         "No exact differential run against the Lean model (interleavings are not replayable): the theorems cover every interleaving of the model, the tie is the "
         "regenerated facts (channel capacity, non-blocking Reset, Reset after the successful mutation under queueLocker in every mutator, loop order) plus this matrix")
 
+MISFIRE_RULE = (". Plus (qh misfire --prop C05, 24 scenarios per round) schedulers configured with WithMisfiredChan(ch), ch unbuffered or with a buffer of 1, which nobody reads, "
+                "RetryInterval default or 2 s, OutdatedThreshold 1 s (200 ms when the jobs go stale by waiting), modes default / WorkerLimit 2 / BlockingExecution with instantaneous jobs (neither permitted delay "
+                "applies): 4..7 stale run-once jobs (their time passed while the scheduler was not running, or their trigger reports a fire time 10 s in the past; each is a "
+                "misfire that cannot be delivered) and a fresh run-once job due in 20 / 50 ms, scheduled {before Start, on the running scheduler before the stale ones, after them}: "
+                "Execute of the fresh job starts within 300 ms of max(API return + delay, Start); late or never (2.3 s) = re-run alone up to three times, a violation only if late every time")
+
+
 
 def run(ctx):
     b = common.build_all(ctx)
@@ -42,6 +49,8 @@ def run(ctx):
     results.append(generic.engine_run(ctx, "wakeup3", ["--seed", str(ctx.seed), "--n", "1" if not ctx.thorough else "6"], "restart", timeout=600))
     # a queue whose Push is slower than a goroutine wake-up (harness/cmd/qh/wakeup5.go): 13 scenarios per round
     results.append(generic.engine_run(ctx, "wakeup5", ["--seed", str(ctx.seed), "--n", "2" if not ctx.thorough else "10"], "slowpush", timeout=600))
+    # stale jobs whose misfires nobody reads + a fresh job due at the same time (harness/cmd/qh/misfire.go)
+    results.append(generic.engine_run(ctx, "misfire", ["--prop", "C05", "--seed", str(ctx.seed), "--n", "1" if not ctx.thorough else "6"], "misfire", timeout=900))
     bad = generic.proof_cov(ctx, extra_trusted=[
         "Go channel semantics: a send on a channel with a free buffer slot stores the token, `select` with `default` never blocks, a receive in `select` takes a "
         "stored token; an unbuffered send succeeds only as a rendezvous with a blocked receiver (the model's `send`)",
@@ -54,7 +63,7 @@ def run(ctx):
         "timing assumption: it proves that a parked loop with no token pending is armed no later than the earliest fire time of the current queue"])
     generic.judge(ctx, results, bad, "wakeup",
                   widen=lambda: (generic.engine_run(ctx, "wakeup", ["--seed", str(ctx.seed * 7919 + k), "--n", "1008"], "search%d" % k, timeout=900) for k in range(1, 3)))
-    generic.fill_coverage(ctx, results, RULE)
+    generic.fill_coverage(ctx, results, RULE + MISFIRE_RULE)
     ctx.coverage["traces_validated_against_impl"] = 0
     ctx.coverage["note"] = "concurrency property: stats.json only, no ops.txt/impl.txt; the harness's own oracle judges the real code"
     ok = [r for r in results if not r.get("failed")]
